@@ -1,5 +1,8 @@
 (** replace_edge(g, e, g): the host graph used as its own replacement (one heap object).
-    The faithful model [replace_edge_alias_model] NEVER meets the replacement specification:
+    The code as it is now (/repo 0be4bef) snapshots the replacement before the first mutation:
+    [replace_edge_self_model] = the functional model with [r := g], which meets the specification
+    ([replace_self_spec]).  The OLD code, [replace_edge_alias_model_old] (kept as the record of finding
+    c15_replacement_is_host), NEVER met the replacement specification:
     it returns only when nothing had to be copied, and then the copy of [e] itself is missing
     (the edge was removed from the replacement before it was read); in every other case it raises
     RuntimeError after the edge has been removed and one node / one edge has been inserted.
@@ -10,8 +13,8 @@ Import ListNotations.
 Require Import Fggs.Model.Replace Fggs.Proofs.Replace_base Fggs.Proofs.Replace_wf Fggs.Proofs.Replace_explicit
   Fggs.Proofs.Replace_spec Fggs.Proofs.Replace_model_spec Fggs.Proofs.Replace_complete.
 
-Lemma alias_copy_nodes_None : forall rnodes g nx nm g' nx' nm',
-  alias_copy_nodes g nx nm rnodes = (g', nx', nm', None) ->
+Lemma alias_copy_nodes_old_None : forall rnodes g nx nm g' nx' nm',
+  alias_copy_nodes_old g nx nm rnodes = (g', nx', nm', None) ->
   g' = g /\ nx' = nx /\ nm' = nm /\ forall v, In v rnodes -> amem node_eqb nm v = true.
 Proof.
   induction rnodes as [|v vs IH]; simpl; intros g nx nm g' nx' nm' H.
@@ -21,8 +24,8 @@ Proof.
     intros u [<-|Hu]; auto.
 Qed.
 
-Lemma alias_copy_nodes_Some : forall rnodes g nx nm g' nx' nm' k,
-  alias_copy_nodes g nx nm rnodes = (g', nx', nm', Some k) ->
+Lemma alias_copy_nodes_old_Some : forall rnodes g nx nm g' nx' nm' k,
+  alias_copy_nodes_old g nx nm rnodes = (g', nx', nm', Some k) ->
   k = RuntimeErr /\ nx' = S nx /\ exists v, In v rnodes /\ amem node_eqb nm v = false /\
      g' = push_node g (mkNode (Fresh nx) (n_label v)).
 Proof.
@@ -32,10 +35,10 @@ Proof.
   - inversion H; subst. repeat split; auto. exists v; auto.
 Qed.
 
-Lemma alias_copy_edges_Ok : forall nm g nx g' nx' em,
-  alias_copy_edges nm g nx = (g', nx', Ok em) -> g_edges g = [] /\ g' = g /\ nx' = nx /\ em = [].
+Lemma alias_copy_edges_old_Ok : forall nm g nx g' nx' em,
+  alias_copy_edges_old nm g nx = (g', nx', Ok em) -> g_edges g = [] /\ g' = g /\ nx' = nx /\ em = [].
 Proof.
-  intros nm g nx g' nx' em H. unfold alias_copy_edges in H.
+  intros nm g nx g' nx' em H. unfold alias_copy_edges_old in H.
   destruct (g_edges g) as [|re res] eqn:E.
   - inversion H; subst; auto.
   - destruct (map_nodes nm (e_att re)); try discriminate.
@@ -45,37 +48,37 @@ Qed.
 
 (** it returns only if no node and no edge had to be copied; the result is the host minus [e] and
     the edge map is EMPTY *)
-Theorem alias_returns : forall g nx e g' nx' nm em,
-  replace_edge_alias_model g nx e = (g', nx', Ok (nm, em)) ->
+Theorem alias_old_returns : forall g nx e g' nx' nm em,
+  replace_edge_alias_model_old g nx e = (g', nx', Ok (nm, em)) ->
   g' = remove_edge_id g (e_id e) /\ nx' = nx /\ em = [] /\ nm = ext_map (g_ext g) (e_att e) /\
   g_edges g' = [] /\ (forall v, In v (g_nodes g) -> amem node_eqb nm v = true).
 Proof.
-  intros g nx e g' nx' nm em H. unfold replace_edge_alias_model in H.
+  intros g nx e g' nx' nm em H. unfold replace_edge_alias_model_old in H.
   destruct (negb (list_eqb Nat.eqb (l_type (e_label e)) (gtype g))); try discriminate.
   destruct (negb (has_edge_id g (e_id e))); try discriminate.
-  destruct (alias_copy_nodes _ _ _ _) as [[[g2 nx2] nm2] [k|]] eqn:CN; try discriminate.
-  apply alias_copy_nodes_None in CN. destruct CN as [-> [-> [-> ALL]]].
-  destruct (alias_copy_edges _ _ _) as [[g3 nx3] [em3|k]] eqn:CE; try discriminate.
-  apply alias_copy_edges_Ok in CE. destruct CE as [E0 [-> [-> ->]]].
+  destruct (alias_copy_nodes_old _ _ _ _) as [[[g2 nx2] nm2] [k|]] eqn:CN; try discriminate.
+  apply alias_copy_nodes_old_None in CN. destruct CN as [-> [-> [-> ALL]]].
+  destruct (alias_copy_edges_old _ _ _) as [[g3 nx3] [em3|k]] eqn:CE; try discriminate.
+  apply alias_copy_edges_old_Ok in CE. destruct CE as [E0 [-> [-> ->]]].
   inversion H; subst. repeat split; auto.
 Qed.
 
 (** hence the aliased call never yields a replacement of [e] by (the caller's) [g] *)
-Theorem replace_alias_never_spec : forall g nx e g' nx' nm em,
-  replace_edge_alias_model g nx e = (g', nx', Ok (nm, em)) -> ~ replace_spec g e g g' nm em.
+Theorem replace_alias_old_never_spec : forall g nx e g' nx' nm em,
+  replace_edge_alias_model_old g nx e = (g', nx', Ok (nm, em)) -> ~ replace_spec g e g g' nm em.
 Proof.
-  intros g nx e g' nx' nm em H S. destruct (alias_returns _ _ _ _ _ _ _ H) as [_ [_ [-> _]]].
+  intros g nx e g' nx' nm em H S. destruct (alias_old_returns _ _ _ _ _ _ _ H) as [_ [_ [-> _]]].
   pose proof (rs_em_dom _ _ _ _ _ _ S) as D. pose proof (rs_edge_in _ _ _ _ _ _ S) as I.
   simpl in D. rewrite <- D in I. destruct I.
 Qed.
 
-Corollary replace_alias_rejected : forall g nx e g' nx' nm em,
-  replace_edge_alias_model g nx e = (g', nx', Ok (nm, em)) -> replace_ok g e g g' nm em = false.
-Proof. intros. apply replace_ok_false. eapply replace_alias_never_spec; eauto. Qed.
+Corollary replace_alias_old_rejected : forall g nx e g' nx' nm em,
+  replace_edge_alias_model_old g nx e = (g', nx', Ok (nm, em)) -> replace_ok g e g g' nm em = false.
+Proof. intros. apply replace_ok_false. eapply replace_alias_old_never_spec; eauto. Qed.
 
 (** * closed form under the guard of C15_replace_spec (with [r := g]) *)
-Lemma alias_copy_nodes_explicit : forall rnodes g nx nm,
-  alias_copy_nodes g nx nm rnodes =
+Lemma alias_copy_nodes_old_explicit : forall rnodes g nx nm,
+  alias_copy_nodes_old g nx nm rnodes =
   match filter (fun v => negb (amem node_eqb nm v)) rnodes with
   | [] => (g, nx, nm, None)
   | v :: _ => (push_node g (mkNode (Fresh nx) (n_label v)), S nx,
@@ -86,13 +89,13 @@ Proof.
   destruct (amem node_eqb nm v); simpl; auto.
 Qed.
 
-Lemma alias_copy_edges_via : forall nm g nx re res, g_edges g = re :: res ->
-  alias_copy_edges nm g nx = match copy_edges nm [re] g nx [] with
+Lemma alias_copy_edges_old_via : forall nm g nx re res, g_edges g = re :: res ->
+  alias_copy_edges_old nm g nx = match copy_edges nm [re] g nx [] with
                              | (g', nx', Ok _) => (g', nx', Err RuntimeErr)
                              | (g', nx', Err k) => (g', nx', Err k)
                              end.
 Proof.
-  intros. unfold alias_copy_edges. rewrite H. cbn [copy_edges].
+  intros. unfold alias_copy_edges_old. rewrite H. cbn [copy_edges].
   destruct (map_nodes nm (e_att re)); auto. destruct (negb _); auto.
   destruct (add_edge g _) as [g2 [k|]]; auto.
 Qed.
@@ -108,10 +111,10 @@ Proof.
     apply is_ext_In in E2. congruence.
 Qed.
 
-Theorem replace_alias_explicit : forall L g nx e, repl_guard L g nx e g ->
+Theorem replace_alias_old_explicit : forall L g nx e, repl_guard L g nx e g ->
   let g1 := remove_edge_id g (e_id e) in
   let nm0 := combine (g_ext g) (e_att e) in
-  replace_edge_alias_model g nx e =
+  replace_edge_alias_model_old g nx e =
   match nonext g with
   | v :: _ => (push_node g1 (mkNode (Fresh nx) (n_label v)), S nx, Err RuntimeErr)
   | [] => match kept g e with
@@ -122,7 +125,7 @@ Theorem replace_alias_explicit : forall L g nx e, repl_guard L g nx e g ->
   end.
 Proof.
   intros L g nx e G g1 nm0. pose proof (guard_lengths _ _ _ _ _ G) as HL.
-  unfold replace_edge_alias_model.
+  unfold replace_edge_alias_model_old.
   assert (T : list_eqb Nat.eqb (l_type (e_label e)) (gtype g) = true).
   { apply (list_eqb_eq Nat.eqb Nat.eqb_eq). apply (rg_type _ _ _ _ _ G). }
   rewrite T. cbn [negb].
@@ -130,14 +133,14 @@ Proof.
   { unfold has_edge_id. apply existsb_exists. exists e; split; [apply (rg_in _ _ _ _ _ G) | apply id_eqb_refl]. }
   rewrite P. cbn [negb]. cbn [remove_edge_id g_ext g_nodes].
   rewrite ext_map_nodup by (auto; apply (rg_ext _ _ _ _ _ G)).
-  rewrite alias_copy_nodes_explicit. rewrite (nonext_filter g e HL).
+  rewrite alias_copy_nodes_old_explicit. rewrite (nonext_filter g e HL).
   destruct (nonext g) as [|v vs] eqn:NE; [|reflexivity].
   fold g1. fold nm0.
   assert (NM : r_nm nx e g = nm0). { unfold r_nm. rewrite NE. simpl. apply app_nil_r. }
   destruct (kept g e) as [|re res] eqn:K.
-  - unfold alias_copy_edges. unfold g1 at 1. cbn [remove_edge_id g_edges]. fold (kept g e). rewrite K. reflexivity.
+  - unfold alias_copy_edges_old. unfold g1 at 1. cbn [remove_edge_id g_edges]. fold (kept g e). rewrite K. reflexivity.
   - assert (E1 : g_edges g1 = re :: res) by (unfold g1; cbn [remove_edge_id g_edges]; exact K).
-    rewrite (alias_copy_edges_via nm0 g1 nx re res E1).
+    rewrite (alias_copy_edges_old_via nm0 g1 nx re res E1).
     assert (Hre : In re (g_edges g)). { apply (kept_incl g e). rewrite K. simpl; auto. }
     rewrite (copy_edges_spec L); auto.
     + cbn [ecopies map tbl_adds fold_left length]. unfold g1 at 2. cbn [remove_edge_id g_elabs]. rewrite Nat.add_1_r. reflexivity.
@@ -159,13 +162,13 @@ Qed.
 (** on a well-formed, well-typed aliased call the outcome is never a success that meets the
     specification: it is RuntimeError with the host already changed, unless every node is external
     and [e] is the only edge -- and then the returned graph lacks the copy of [e] *)
-Corollary replace_alias_guarded : forall L g nx e, repl_guard L g nx e g ->
-  (exists g' nx', replace_edge_alias_model g nx e = (g', nx', Err RuntimeErr) /\
+Corollary replace_alias_old_guarded : forall L g nx e, repl_guard L g nx e g ->
+  (exists g' nx', replace_edge_alias_model_old g nx e = (g', nx', Err RuntimeErr) /\
                   has_edge_id g' (e_id e) = false /\ g' <> g)
-  \/ (exists nm, replace_edge_alias_model g nx e = (remove_edge_id g (e_id e), nx, Ok (nm, [])) /\
+  \/ (exists nm, replace_edge_alias_model_old g nx e = (remove_edge_id g (e_id e), nx, Ok (nm, [])) /\
                  ~ replace_spec g e g (remove_edge_id g (e_id e)) nm []).
 Proof.
-  intros L g nx e G. pose proof (replace_alias_explicit L g nx e G) as E. cbv zeta in E.
+  intros L g nx e G. pose proof (replace_alias_old_explicit L g nx e G) as E. cbv zeta in E.
   assert (GONE : has_edge_id (remove_edge_id g (e_id e)) (e_id e) = false).
   { unfold has_edge_id, remove_edge_id; cbn [g_edges]. destruct (existsb _ _) eqn:X; auto.
     apply existsb_exists in X. destruct X as [x [Hx Hi]]. apply filter_In in Hx. destruct Hx as [_ Hx].
@@ -174,7 +177,7 @@ Proof.
   { unfold has_edge_id. apply existsb_exists. exists e; split; [apply (rg_in _ _ _ _ _ G) | apply id_eqb_refl]. }
   destruct (nonext g) as [|v vs].
   - destruct (kept g e) as [|re res] eqn:K.
-    + right. eexists. split; [exact E|]. eapply replace_alias_never_spec; eauto.
+    + right. eexists. split; [exact E|]. eapply replace_alias_old_never_spec; eauto.
     + left. eexists _, _. split; [exact E|]. split.
       * unfold has_edge_id, add_edges; cbn [g_edges]. rewrite existsb_app. fold (has_edge_id (remove_edge_id g (e_id e)) (e_id e)).
         rewrite GONE. cbn [existsb e_id orb]. rewrite orb_false_r.
@@ -191,20 +194,40 @@ Proof.
       unfold push_node in H; cbn [g_nodes remove_edge_id] in H. rewrite app_length in H. simpl in H. lia.
 Qed.
 
-(** the repair: read the replacement before mutating the host.  With a snapshot of [g] as the
-    replacement the call is the functional model with [r := g], and C15_replace_spec applies *)
-Theorem replace_snapshot_spec : forall L g nx e,
+(** the code as it is now: the replacement is read before the host is mutated, so the aliased call is
+    the functional model with [r := g]; on a well-formed host whose type is the edge's it returns a
+    result satisfying the replacement specification (a copy of [e] itself included), and
+    well-formedness, the counter bound and the label discipline are preserved *)
+Theorem replace_self_spec : forall L g nx e,
+  wf_graphb g = true -> belowb nx g = true -> memb edge_eqb (g_edges g) e = true ->
+  nodupb node_eqb (g_ext g) = true -> functionalb L = true -> labels_in L g = true ->
+  (l_type (e_label e) = gtype g ->
+     exists g' nx' nm em, replace_edge_self_model g nx e = (g', nx', Ok (nm, em)) /\ replace_spec g e g g' nm em /\
+                          wf_graphb g' = true /\ belowb nx' g' = true /\ labels_in L g' = true /\ nx <= nx')
+  /\ (l_type (e_label e) <> gtype g -> replace_edge_self_model g nx e = (g, nx, Err ValueErr)).
+Proof.
+  intros L g nx e H1 H2 H3 H4 H5 H6. unfold replace_edge_self_model.
+  exact (replace_spec_main L g nx e g H1 H2 H3 H1 H4 H5 H6 H6).
+Qed.
+
+(** in particular the edge map is defined on [e] itself: the result contains a copy of [e] *)
+Corollary replace_self_copies_e : forall L g nx e,
   wf_graphb g = true -> belowb nx g = true -> memb edge_eqb (g_edges g) e = true ->
   nodupb node_eqb (g_ext g) = true -> functionalb L = true -> labels_in L g = true ->
   l_type (e_label e) = gtype g ->
-  exists g' nx' nm em, replace_edge_model g nx e g = (g', nx', Ok (nm, em)) /\ replace_spec g e g g' nm em.
+  exists g' nx' nm em ge, replace_edge_self_model g nx e = (g', nx', Ok (nm, em)) /\
+                          In (e, ge) em /\ In ge (g_edges g') /\ e_label ge = e_label e.
 Proof.
   intros L g nx e H1 H2 H3 H4 H5 H6 HT.
-  destruct (proj1 (replace_spec_main L g nx e g H1 H2 H3 H1 H4 H5 H6 H6) HT) as [g' [nx' [nm [em [A [B _]]]]]].
-  exists g', nx', nm, em. split; auto.
+  destruct (proj1 (replace_self_spec L g nx e H1 H2 H3 H4 H5 H6) HT) as [g' [nx' [nm [em [A [S _]]]]]].
+  pose proof (rs_edge_in _ _ _ _ _ _ S) as I. rewrite <- (rs_em_dom _ _ _ _ _ _ S) in I.
+  apply in_map_iff in I. destruct I as [[re ge] [E I]]. cbn [fst] in E. subst re.
+  exists g', nx', nm, em, ge. split; auto. split; auto. split.
+  - rewrite (rs_edges _ _ _ _ _ _ S). apply in_app_iff; right. apply in_map_iff. exists (e, ge); auto.
+  - apply (rs_em_copy _ _ _ _ _ _ S e ge I).
 Qed.
 
-(** witnesses (the faithful model violates the property on well-formed inputs):
+(** witnesses (the faithful model of the OLD code violates the property on well-formed inputs):
     1. host  a(ext) -t- b, X(b): b is internal, so one node is copied and RuntimeError is raised
        with the edge already removed;
     2. host  a(ext), X(a)  only: the call RETURNS an empty edge map and a graph without any
@@ -218,21 +241,21 @@ Definition al_host1 : graph := mkGraph [al_a; al_b] [mkEdge (Explicit 0) al_t [a
 Definition al_e2 : edge := mkEdge (Explicit 0) al_X [al_a].
 Definition al_host2 : graph := mkGraph [al_a] [al_e2] [al_a] [al_X] [0].
 
-Theorem replace_alias_refuted :
+Theorem replace_alias_old_refuted :
   (* raises half-way *)
   (wf_graphb al_host1 = true /\ belowb 0 al_host1 = true /\ memb edge_eqb (g_edges al_host1) al_e = true /\
    nodupb node_eqb (g_ext al_host1) = true /\ functionalb [al_t; al_X] = true /\ labels_in [al_t; al_X] al_host1 = true /\
    l_type (e_label al_e) = gtype al_host1 /\
-   exists g', replace_edge_alias_model al_host1 0 al_e = (g', 1, Err RuntimeErr) /\
+   exists g', replace_edge_alias_model_old al_host1 0 al_e = (g', 1, Err RuntimeErr) /\
               length (g_nodes g') = 3 /\ length (g_edges g') = 1) /\
   (* returns a non-replacement *)
   (wf_graphb al_host2 = true /\ belowb 0 al_host2 = true /\ memb edge_eqb (g_edges al_host2) al_e2 = true /\
    nodupb node_eqb (g_ext al_host2) = true /\ functionalb [al_X] = true /\ labels_in [al_X] al_host2 = true /\
    l_type (e_label al_e2) = gtype al_host2 /\
-   exists g' nm, replace_edge_alias_model al_host2 0 al_e2 = (g', 0, Ok (nm, [])) /\ g_edges g' = [] /\
+   exists g' nm, replace_edge_alias_model_old al_host2 0 al_e2 = (g', 0, Ok (nm, [])) /\ g_edges g' = [] /\
                  ~ replace_spec al_host2 al_e2 al_host2 g' nm [] /\
-                 (* whereas with a snapshot of the same graph the copy of X(a) is there *)
-                 exists g'' nm' em', replace_edge_model al_host2 0 al_e2 al_host2 = (g'', 1, Ok (nm', em')) /\
+                 (* whereas the code as it is now (snapshot first) keeps the copy of X(a) *)
+                 exists g'' nm' em', replace_edge_self_model al_host2 0 al_e2 = (g'', 1, Ok (nm', em')) /\
                                      length (g_edges g'') = 1 /\ replace_spec al_host2 al_e2 al_host2 g'' nm' em').
 Proof.
   split.
@@ -244,15 +267,15 @@ Proof.
 Qed.
 
 (** the same with the boolean guards of C15_replace_spec *)
-Theorem replace_alias_guarded_b : forall L g nx e,
+Theorem replace_alias_old_guarded_b : forall L g nx e,
   wf_graphb g = true -> belowb nx g = true -> memb edge_eqb (g_edges g) e = true ->
   nodupb node_eqb (g_ext g) = true -> functionalb L = true -> labels_in L g = true ->
   l_type (e_label e) = gtype g ->
-  (exists g' nx', replace_edge_alias_model g nx e = (g', nx', Err RuntimeErr) /\
+  (exists g' nx', replace_edge_alias_model_old g nx e = (g', nx', Err RuntimeErr) /\
                   has_edge_id g' (e_id e) = false /\ g' <> g)
-  \/ (exists nm, replace_edge_alias_model g nx e = (remove_edge_id g (e_id e), nx, Ok (nm, [])) /\
+  \/ (exists nm, replace_edge_alias_model_old g nx e = (remove_edge_id g (e_id e), nx, Ok (nm, [])) /\
                  ~ replace_spec g e g (remove_edge_id g (e_id e)) nm []).
 Proof.
-  intros L g nx e H1 H2 H3 H4 H5 H6 HT. apply (replace_alias_guarded L).
+  intros L g nx e H1 H2 H3 H4 H5 H6 HT. apply (replace_alias_old_guarded L).
   apply repl_guard_of_bool; auto.
 Qed.
